@@ -47,7 +47,7 @@ def spell_parts(rng, parts):
             out.append(c * m)
         else:
             out.append(str(m) + c)
-    sep = rng.choice([" ", " ", "", "  "])
+    sep = rng.choice([" ", " ", "", "  ", "\t", " \t"])     # any white space may separate the parts of a quoted region
     s = sep.join(out)
     # adjacent tokens without separator are only safe if the next token does not start with a digit
     if sep == "":
